@@ -6,6 +6,7 @@ import (
 	"github.com/bartossh/Computantis/src/transaction"
 	"google.golang.org/protobuf/proto"
 	"math/rand"
+	"runtime"
 	"sort"
 	"strings"
 	"sync"
@@ -709,6 +710,74 @@ func c11SmallCacheRelay(w *core.WorkerCtx, rng *rand.Rand) {
 	}
 }
 
+// c11Burst: one node originates several items back to back (a busy notary): awaiting contracts saved and handed to the
+// gossiper in a tight loop, and a run of vertices sealed first and then handed over together. Every message of every
+// item must carry the origin's own valid entry for that very item whatever the scheduler does with the sending
+// goroutines, so the run is repeated with one, two and all processors.
+func c11Burst(w *core.WorkerCtx, rng *rand.Rand) {
+	r := w.R
+	for gi, procs := range []int{1, 2, 0} {
+		t := []topo{smallTopos[len(smallTopos)-1], smallTopos[1], smallTopos[len(smallTopos)-1]}[gi]
+		net, err := vnet.Build(t.k, t.adj, -1)
+		if err != nil {
+			r.Inconc("cannot build network: " + err.Error())
+			return
+		}
+		prev := 0
+		if procs > 0 {
+			prev = runtime.GOMAXPROCS(procs)
+		}
+		for round := 0; round < w.Pick(2, 10); round++ {
+			net.ResetExecution()
+			origin := (round + gi) % t.k
+			o := net.Nodes[origin]
+			var items []c11Item
+			burst := 3 + rng.Intn(4)
+			kind := []string{"trx", "vrx"}[round%2]
+			if kind == "trx" {
+				for i := 0; i < burst; i++ {
+					it, err := c11Originate(net, origin, "trx", 1000*gi+100*round+i)
+					if err == nil {
+						items = append(items, it)
+					}
+				}
+			} else {
+				var vs []accountant.Vertex
+				for i := 0; i < burst; i++ {
+					tr := ledger.ForgeTrx(net.Users[0], net.Users[1+i%3].Addr, fmt.Sprintf("burst %d %d %d", gi, round, i), nil, spice.Melange{SupplementaryCurrency: uint64(1 + i)}, time.Now().Add(-time.Minute))
+					v, err := o.Book.CreateLeaf(context.Background(), &tr)
+					if err == nil {
+						vs = append(vs, v)
+					}
+				}
+				for i := range vs {
+					o.Pipe.SendVrx(&vs[i])
+					items = append(items, c11Item{"vrx", vs[i].Hash, origin, &vs[i], nil})
+				}
+			}
+			desc := fmt.Sprintf("topology %s origin %d: burst of %d %s items handed to the gossiper back to back, GOMAXPROCS=%d", t.name, origin, len(items), kind, runtime.GOMAXPROCS(0))
+			w.Mark("%s", desc)
+			x := &c11Exec{w: w, net: net, t: t, rng: rng, policy: []string{"fifo", "random", "lifo"}[round%3]}
+			if !x.drive() {
+				r.Inconc("execution did not reach quiescence: " + desc)
+				break
+			}
+			c11Retries(net, -1)
+			net.Settle()
+			c11Judge(w, net, t, items, desc, -1, nil)
+			r.Eval(1)
+			r.Count("c11_executions", 1)
+			r.Count("c11_burst_executions", 1)
+			r.Nontriv(fmt.Sprintf("burst/%s/%s/procs%d/%s", t.name, kind, procs, net.OrderString()))
+			c11Heal(net, -1)
+		}
+		if procs > 0 {
+			runtime.GOMAXPROCS(prev)
+		}
+		net.Close()
+	}
+}
+
 // c11Witness is the fixed schedule of the known finding: line A-C-D, parent and child created back to back at A,
 // the child reaches relay C first.
 func c11Witness(w *core.WorkerCtx) {
@@ -765,6 +834,9 @@ func c11Worker(w *core.WorkerCtx) {
 	}
 	if w.Batch == 2 {
 		c11ConcurrentCopies(w, core.Rand(w.Seed, "C11conc", w.Batch))
+	}
+	if w.Batch == 3 {
+		c11Burst(w, core.Rand(w.Seed, "C11burst", w.Batch))
 	}
 	// the 9 small graphs are spread over the batches; larger graphs are sampled
 	for ti, t := range smallTopos {
